@@ -136,7 +136,7 @@ def run(ctx):
         for seq in ([order[0], order[-1]], [order[-1], order[0]], order[:3][::-1]) if (len(vols) > 1 or k % 4 == 0) else ():
             cases.append(vlib.Case('d%d' % k, {name: img}, ['--file', '@' + name, 'space'] + ['0%s' % (v_[0] or '') for v_ in seq],
                                    meta={'cmd': 'space', 'multi': seq, 'd': d, 'vol': seq[0], 'kind': kind, 'k': k}))
-        cases.append(vlib.Case('d%d' % k, {name: img}, ['--file', '@' + name, 'sector-map', '0'], meta={'cmd': 'sector-ma', 'd': d, 'kind': kind, 'k': k, 'img': img}))
+        cases.append(vlib.Case('d%d' % k, {name: img}, ['--file', '@' + name, 'sector-map', '0'], meta={'cmd': 'sector-map', 'd': d, 'kind': kind, 'k': k, 'img': img}))
         cases.append(vlib.Case('d%d' % k, {name: img}, ['--file', '@' + name, 'extract-unused', '@out'], dest='out', meta={'cmd': 'extract-unused', 'd': d, 'kind': kind, 'k': k, 'img': img}))
     vlib.run_cases(cases, impl['dfs'])
     smaps = {}
